@@ -31,7 +31,7 @@ def TreeRes (o : TreeOut) (rules : Rules) (i : Nat) (r : Int) (lm : Option Nat) 
   match o with
   | .win a => r = 1 ∧ s.finished = false ∧ ∃ k n, lm = some (i + k) ∧ rules[k]? = some (a, n)
   | .stopped c => r = -1 ∧ s.finished = true ∧ s.answer = { code := c }
-  | .nomatch => r = 0 ∧ s.finished = false
+  | .noRule => r = 0 ∧ s.finished = false
 
 inductive TreePost (ctx : Ctx) (bound : Nat) (o : TreeOut) (rules : Rules) (i : Nat) (okPath : List Crumb → Prop) :
     Int × Option Nat × CL → Prop where
@@ -49,7 +49,7 @@ theorem treeRes_shift {o : TreeOut} {rest : Rules} {x : Answer × Node} {i : Nat
     obtain ⟨h1, h2, k, n, h3, h4⟩ := h
     exact ⟨h1, h2, k + 1, n, by rw [h3]; congr 1; omega, by simpa using h4⟩
   | stopped c => exact h
-  | nomatch => exact h
+  | noRule => exact h
 
 theorem TreePost.shift {ctx : Ctx} {b b' : Nat} {o : TreeOut} {rest : Rules} {x : Answer × Node} {i : Nat}
     {P Q : List Crumb → Prop} {y : Int × Option Nat × CL}
@@ -96,7 +96,7 @@ theorem treeLoop_spec (ctx : Ctx) (rules : Rules) (i skip : Nat) (s : CL) (hs : 
         · simpa [ValidRules] using hvp
         · simpa [refTreeAt] using hrp
       · have hb' : ¬ ctx.banned.any (fun x => x.same a) = true := hb
-        simp only [hb, if_false] at hv ⊢
+        simp only [hb, Bool.false_eq_true, if_false] at hv ⊢
         simp only [hb', if_false]
         have mc := matchChild_spec ctx n [] i (run_spec ctx n ([] ++ [i])) s hs hv
         simp only [List.nil_append] at mc
@@ -130,8 +130,8 @@ theorem treeLoop_spec (ctx : Ctx) (rules : Rules) (i skip : Nat) (s : CL) (hs : 
           obtain ⟨p', hp', hvp, hrp⟩ := h8
           simp only [Bool.false_eq_true, if_false, CL.KeepMatching, h1, reduceCtorEq, and_false]
           refine .paused h1 (by decide) h3 h4 h5 h6 h7 ⟨0, p', by simpa using hp', ?_, ?_⟩
-          · simp only [ValidRules, hb, if_false]; exact hvp
-          · simp only [refTreeAt, hb, if_false, ← refAt_eq, hrp]
+          · simp only [ValidRules, hb, Bool.false_eq_true, if_false]; exact hvp
+          · simp only [refTreeAt, hb, Bool.false_eq_true, if_false, ← refAt_eq, hrp]
 
 /-! ### matchAndFinish -/
 
@@ -146,7 +146,7 @@ def FinalOk (o : TreeOut) (s : CL) : Prop :=
   match o with
   | .win a => s.finished = true ∧ s.answer = a
   | .stopped c => s.finished = true ∧ s.answer = { code := c }
-  | .nomatch => s.finished = false
+  | .noRule => s.finished = false
 
 /-- everything a suspended checklist must satisfy so that resuming it works -/
 structure PausedInv (ctx : Ctx) (rules : Rules) (o : TreeOut) (s : CL) : Prop where
@@ -184,13 +184,13 @@ theorem maf_finish (ctx : Ctx) (rules : Rules) (b : Nat) (o : TreeOut) (y : Int 
       obtain ⟨hr, hf, k, n, hlm, hk⟩ := h6
       subst hr
       simp only [if_true, hlm, winningAction, Nat.zero_add, hk, markFinished, hf, h1, and_self]
-      exact .done h1 h2 h3 h4 h5 ⟨rfl, rfl⟩
+      exact .done rfl h2 h3 h4 h5 ⟨rfl, rfl⟩
     | stopped c =>
       obtain ⟨hr, hf, ha⟩ := h6
       subst hr
       simp only [show ¬ ((-1 : Int) = 1) by decide, if_false]
       exact .done h1 h2 h3 h4 h5 ⟨hf, ha⟩
-    | nomatch =>
+    | noRule =>
       obtain ⟨hr, hf⟩ := h6
       subst hr
       simp only [show ¬ ((0 : Int) = 1) by decide, if_false]
@@ -204,8 +204,9 @@ theorem maf_finish (ctx : Ctx) (rules : Rules) (b : Nat) (o : TreeOut) (y : Int 
     · rw [hp]; simpa [treeAt] using hrp
 
 theorem matchAndFinish_spec (ctx : Ctx) (rules : Rules) (s : CL) (hs : Good ctx s)
-    (hv : TreeValid ctx rules s.path) :
-    MAFPost ctx rules (totalRounds s.rounds) (treeAt ctx rules s.path) (matchAndFinish ctx rules s).2 := by
+    (hv : TreeValid ctx rules s.path) (o : TreeOut) (ho : treeAt ctx rules s.path = o) :
+    MAFPost ctx rules (totalRounds s.rounds) o (matchAndFinish ctx rules s).2 := by
+  subst ho
   unfold matchAndFinish
   cases hp : s.path with
   | nil =>
@@ -222,17 +223,23 @@ theorem matchAndFinish_spec (ctx : Ctx) (rules : Rules) (s : CL) (hs : Good ctx 
 
 /-! ### the implicit answer -/
 
-theorem calcImplicitAnswer_eq (rules : Rules) (s : CL) :
-    calcImplicitAnswer (some rules) s = markFinished (implicitAnswer rules) s := by
-  simp only [calcImplicitAnswer, lastAction, implicitAnswer]
-  cases rules.getLast? with
-  | none => simp
-  | some x =>
-    obtain ⟨a, n⟩ := x
-    simp only
+theorem implicit_eq (rules : Rules) :
+    ({ code := if (lastAction rules).code = .denied then Code.allowed
+               else if (lastAction rules).code = .allowed then Code.denied else Code.dunno,
+       implicit := true } : Answer) = implicitAnswer rules := by
+  unfold lastAction implicitAnswer
+  split
+  next h => simp [h]
+  next a n h =>
+    simp only [h]
     split
     · rfl
     · split <;> rfl
+
+theorem calcImplicitAnswer_eq (rules : Rules) (s : CL) :
+    calcImplicitAnswer (some rules) s = markFinished (implicitAnswer rules) s := by
+  simp only [calcImplicitAnswer]
+  rw [implicit_eq]
 
 /-! ### the entry points -/
 
@@ -242,106 +249,152 @@ def StepPost (ctx : Ctx) (rules : Rules) (bound : Nat) : StepOut → Prop
   | .answered a s => a = reference ctx rules ∧ s.fault = none
   | .paused s => PausedInv ctx rules (refTreeAt ctx rules 0 []) s ∧ totalRounds s.rounds ≤ bound
 
-theorem finish_step (ctx : Ctx) (rules : Rules) (b : Nat) (o : TreeOut) (s : CL)
-    (ho : answerOf rules o = reference ctx rules) (hspec : o = refTreeAt ctx rules 0 [])
-    (h : MAFPost ctx rules b o s) :
+theorem finish_step (ctx : Ctx) (rules : Rules) (b : Nat) (x : Option Nat × CL)
+    (h : MAFPost ctx rules b (refTreeAt ctx rules 0 []) x.2) :
     StepPost ctx rules b
-      (if s.stage = .none then
-        let s := completeNonBlocking (some rules) s
-        StepOut.answered s.answer s
-      else StepOut.paused s) := by
+      (match x with
+       | (lm, s) =>
+         if s.stage = Stage.none then
+           let s := completeNonBlocking (some rules) s
+           (lm, StepOut.answered s.answer s)
+         else (lm, StepOut.paused s)).2 := by
+  obtain ⟨lm, s⟩ := x
+  replace h : MAFPost ctx rules b (refTreeAt ctx rules 0 []) s := h
+  have ho := answerOf_start ctx rules
   cases h with
   | done h1 h2 h3 h4 h5 h6 =>
     simp only [h1, if_true, completeNonBlocking]
-    cases o with
+    cases hspec : refTreeAt ctx rules 0 [] with
     | win a =>
+      rw [hspec] at h6 ho
       obtain ⟨hf, ha⟩ := h6
       simp only [hf, if_true]
       exact ⟨by rw [ha]; exact ho, h3⟩
     | stopped c =>
+      rw [hspec] at h6 ho
       obtain ⟨hf, ha⟩ := h6
       simp only [hf, if_true]
       exact ⟨by rw [ha]; exact ho, h3⟩
-    | nomatch =>
+    | noRule =>
+      rw [hspec] at h6 ho
       simp only [FinalOk] at h6
       simp only [h6, Bool.false_eq_true, if_false, calcImplicitAnswer_eq, markFinished, h1, and_self, if_true]
       exact ⟨ho, h3⟩
   | paused hp hb =>
     simp only [hp.stage, reduceCtorEq, if_false]
-    exact ⟨hspec ▸ hp, hb⟩
+    exact ⟨hp, hb⟩
+
+theorem finish_resume (ctx : Ctx) (rules : Rules) (b : Nat) (x : Option Nat × CL)
+    (h : MAFPost ctx rules b (refTreeAt ctx rules 0 []) x.2) :
+    StepPost ctx rules b
+      (match x with
+       | (lm, s) =>
+         if s.stage = Stage.none then
+           let s := completeNonBlocking (some rules) s
+           (lm, StepOut.answered s.answer s)
+         else
+           let s := if s.path = [] then s.fail .pausedNoPath else s
+           (lm, StepOut.paused s)).2 := by
+  have := finish_step ctx rules b x h
+  obtain ⟨lm, s⟩ := x
+  replace h : MAFPost ctx rules b (refTreeAt ctx rules 0 []) s := h
+  cases h with
+  | done h1 h2 h3 h4 h5 h6 =>
+    simp only [h1, if_true] at this ⊢
+    exact this
+  | paused hp hb =>
+    simp only [hp.stage, reduceCtorEq, if_false, hp.nonempty] at this ⊢
+    exact this
 
 theorem nonBlockingCheck_spec (ctx : Ctx) (rules : Rules) (lm : Option Nat) (s : CL)
     (hst : s.stage = .none) (hfault : s.fault = none) (hpath : s.path = []) (hro : RoundsOk ctx s.rounds) :
     StepPost ctx rules (totalRounds s.rounds) (nonBlockingCheck ctx (some rules) lm s).2 := by
   have h := matchAndFinish_spec ctx rules { s with depth := 0, finished := false } ⟨hst, rfl, hfault, hro⟩
-    (by simp [hpath, TreeValid])
-  simp only [hpath, treeAt] at h
+    (by simp [hpath, TreeValid]) (refTreeAt ctx rules 0 []) (by simp [hpath, treeAt])
   simp only [nonBlockingCheck]
-  exact finish_step ctx rules _ _ _ (answerOf_start ctx rules) rfl h
+  exact finish_step ctx rules _ _ h
 
 theorem nonBlockingCheck_nil (ctx : Ctx) (lm : Option Nat) (s : CL) (hst : s.stage = .none) (hfault : s.fault = none) :
     ∃ s', (nonBlockingCheck ctx none lm s).2 = .answered { code := .dunno } s' ∧ s'.fault = none := by
   simp only [nonBlockingCheck, markFinished, hst, and_self, if_true]
   exact ⟨_, rfl, hfault⟩
 
+theorem resume_eq (ctx : Ctx) (rules : Rules) (lm : Option Nat) (s : CL)
+    (hst : s.stage = .running) (hne : s.path ≠ []) (hfin : s.finished = false) :
+    resumeNonBlockingCheck ctx (some rules) lm s =
+      (match matchAndFinish ctx rules { s with stage := Stage.none } with
+       | (lm, s) =>
+         if s.stage = Stage.none then
+           let s := completeNonBlocking (some rules) s
+           (lm, StepOut.answered s.answer s)
+         else
+           let s := if s.path = [] then s.fail .pausedNoPath else s
+           (lm, StepOut.paused s)) := by
+  simp only [resumeNonBlockingCheck, hst, if_true, hne, if_false, hfin, Bool.false_eq_true]
+
 theorem completeLookup_spec (ctx : Ctx) (rules : Rules) (lm : Option Nat) (s : CL)
     (h : PausedInv ctx rules (refTreeAt ctx rules 0 []) s) :
     StepPost ctx rules (totalRounds s.rounds - 1) (completeLookup ctx (some rules) lm s).2 := by
   obtain ⟨l, hl, hne⟩ := h.pending
   have hlt := totalRounds_pop_lt s.rounds l hne
-  have hm := matchAndFinish_spec ctx rules
-    { s with pending := none, rounds := popRound s.rounds l, stage := .none }
-    ⟨rfl, h.fin, h.fault, h.rounds.pop l⟩ h.valid
-  simp only [h.spec] at hm
-  simp only [completeLookup, hl, resumeNonBlockingCheck, h.stage, if_true, h.nonempty, if_false, h.fin,
-    Bool.false_eq_true]
-  have := finish_step ctx rules _ _ _ (answerOf_start ctx rules) rfl hm
-  cases hx : (matchAndFinish ctx rules
-      { s with pending := none, rounds := popRound s.rounds l, stage := .none }) with
-  | mk lm' s' =>
-    rw [hx] at this hm
-    simp only at this hm ⊢
+  have hm := matchAndFinish_spec ctx rules { popPending s l with stage := Stage.none }
+    ⟨rfl, h.fin, h.fault, h.rounds.pop l⟩ h.valid _ h.spec
+  have hm' : MAFPost ctx rules (totalRounds s.rounds - 1) (refTreeAt ctx rules 0 []) (matchAndFinish ctx rules
+      { popPending s l with stage := Stage.none }).2 := by
     cases hm with
     | done h1 h2 h3 h4 h5 h6 =>
-      simp only [h1, if_true] at this ⊢
-      exact this
+      refine .done h1 h2 h3 h4 ?_ h6
+      have h5' : totalRounds _ ≤ totalRounds (popRound s.rounds l) := h5
+      omega
     | paused hp hb =>
-      simp only [hp.stage, reduceCtorEq, if_false, hp.nonempty] at this ⊢
-      exact ⟨this.1, by have := this.2; omega⟩
+      refine .paused hp ?_
+      have hb' : totalRounds _ ≤ totalRounds (popRound s.rounds l) := hb
+      omega
+  simp only [completeLookup, hl]
+  rw [resume_eq ctx rules lm (popPending s l) h.stage h.nonempty h.fin]
+  exact finish_resume ctx rules _ _ hm'
+
+theorem finish_fast (ctx : Ctx) (rules : Rules) (b : Nat) (hfast : ctx.asyncCaller = false) (x : Option Nat × CL)
+    (h : MAFPost ctx rules b (refTreeAt ctx rules 0 []) x.2) :
+    ∃ s', (match x with
+       | (lm, s) =>
+         if s.finished then (lm, StepOut.answered s.answer s)
+         else
+           let s := calcImplicitAnswer (some rules) s
+           (lm, StepOut.answered s.answer s)).2 = .answered (reference ctx rules) s' ∧ s'.fault = none := by
+  obtain ⟨lm, s⟩ := x
+  replace h : MAFPost ctx rules b (refTreeAt ctx rules 0 []) s := h
+  have ho := answerOf_start ctx rules
+  cases h with
+  | done h1 h2 h3 h4 h5 h6 =>
+    cases hspec : refTreeAt ctx rules 0 [] with
+    | win a =>
+      rw [hspec] at h6 ho
+      obtain ⟨hf, ha⟩ := h6
+      simp only [hf, if_true]
+      exact ⟨_, by rw [ha, ← ho]; rfl, h3⟩
+    | stopped c =>
+      rw [hspec] at h6 ho
+      obtain ⟨hf, ha⟩ := h6
+      simp only [hf, if_true]
+      exact ⟨_, by rw [ha, ← ho]; rfl, h3⟩
+    | noRule =>
+      rw [hspec] at h6 ho
+      simp only [FinalOk] at h6
+      simp only [h6, Bool.false_eq_true, if_false, calcImplicitAnswer_eq, markFinished, h1, and_self, if_true]
+      rw [← ho]
+      exact ⟨_, rfl, h3⟩
+  | paused hp hb =>
+    obtain ⟨l, _, hne⟩ := hp.pending
+    exact absurd ((hp.rounds l).2 hfast) hne
 
 theorem fastCheck_spec (ctx : Ctx) (rules : Rules) (lm : Option Nat) (s : CL) (hfast : ctx.asyncCaller = false)
     (hst : s.stage = .none) (hfault : s.fault = none) (hpath : s.path = []) (hro : RoundsOk ctx s.rounds) :
     ∃ s', (fastCheck ctx (some rules) lm s).2 = .answered (reference ctx rules) s' ∧ s'.fault = none := by
   have h := matchAndFinish_spec ctx rules { s with depth := 0, finished := false } ⟨hst, rfl, hfault, hro⟩
-    (by simp [hpath, TreeValid])
-  simp only [hpath, treeAt] at h
+    (by simp [hpath, TreeValid]) (refTreeAt ctx rules 0 []) (by simp [hpath, treeAt])
   simp only [fastCheck]
-  cases hx : (matchAndFinish ctx rules { s with depth := 0, finished := false }) with
-  | mk lm' s' =>
-    rw [hx] at h
-    simp only at h ⊢
-    have ho := answerOf_start ctx rules
-    cases h with
-    | done h1 h2 h3 h4 h5 h6 =>
-      cases hspec : refTreeAt ctx rules 0 [] with
-      | win a =>
-        rw [hspec] at h6 ho
-        obtain ⟨hf, ha⟩ := h6
-        simp only [hf, if_true]
-        exact ⟨_, by rw [ha]; exact congrArg (fun x => StepOut.answered x s') ho, h3⟩
-      | stopped c =>
-        rw [hspec] at h6 ho
-        obtain ⟨hf, ha⟩ := h6
-        simp only [hf, if_true]
-        exact ⟨_, by rw [ha]; exact congrArg (fun x => StepOut.answered x s') ho, h3⟩
-      | nomatch =>
-        rw [hspec] at h6 ho
-        simp only [FinalOk] at h6
-        simp only [h6, Bool.false_eq_true, if_false, calcImplicitAnswer_eq, markFinished, h1, and_self, if_true]
-        exact ⟨_, by rw [← ho]; rfl, h3⟩
-    | paused hp hb =>
-      obtain ⟨l, _, hne⟩ := hp.pending
-      exact absurd ((hp.rounds l).2 hfast) hne
+  exact finish_fast ctx rules _ hfast _ h
 
 theorem fastCheck_nil (ctx : Ctx) (lm : Option Nat) (s : CL) (hst : s.stage = .none) (hfault : s.fault = none) :
     ∃ s', (fastCheck ctx none lm s).2 = .answered { code := .dunno, implicit := true } s' ∧ s'.fault = none := by
